@@ -262,16 +262,26 @@ async fn proxy_tcp_connection_with_synack_internal(
     let target_socket = if let Ok(ip) = destination.addr.parse::<IpAddr>() {
         SocketAddr::new(ip, destination.port)
     } else {
-        resolve_host_with_cache(&destination.addr, destination.port)
-            .await
-            .map_err(|err| {
+        match resolve_host_with_cache(&destination.addr, destination.port).await {
+            Ok(addr) => addr,
+            Err(err) => {
                 tracing::error!(
                     "[Proxy] DNS resolution failed for {}: {}",
                     target_display,
                     err
                 );
-                err
-            })?
+                // Send SYNACK with the failure reason, as for a failed dial
+                if peer_version >= 2 {
+                    let error_msg = format!("Failed to resolve {}: {}", target_display, err);
+                    let synack_frame =
+                        Frame::with_data(Command::SynAck, stream_id, Bytes::from(error_msg));
+                    if let Err(send_err) = session.write_control_frame(synack_frame).await {
+                        tracing::error!("[Proxy] Failed to send SYNACK with error: {}", send_err);
+                    }
+                }
+                return Err(err);
+            }
+        }
     };
 
     // Create outbound TCP connection with timeout
